@@ -134,6 +134,8 @@ def tr(seq):
             r = tr(sub)
             if hi == sc_.MAXREPEAT:
                 parts.append(z3.Concat(*([r] * lo), z3.Star(r)) if lo else z3.Star(r))
+            elif hi == 0:
+                parts.append(z3.Re(""))     # z3.Loop would read hi == 0 as "unbounded"
             else:
                 parts.append(z3.Loop(r, lo, hi))
         elif op == sc_.CATEGORY:
